@@ -25,6 +25,7 @@ func runC13(c *Ctx) {
 	c.Rule("R13.1", "range-index agreement: an index from ranging over X indexes only X", 5)
 	c.Rule("R13.2", "weights written are (100-w, w): #0 on stable, #1 on canary", 3)
 	c.Rule("R13.3", "backendRef helpers copy other entries unchanged and never alias the object that was read", 5)
+	c.Rule("R13.12", "every rule that references the stable Service gets the step's split, for every weight", 1)
 	c.Rule("R13.4", "restore: -1 sentinel; only emptied canary rules are dropped", 2)
 	c.Rule("R13.5", "a match step keeps every user rule", 1)
 	c.Rule("R13.6", "canary rules are emitted only with a non-empty match list", 2)
@@ -147,6 +148,14 @@ func runC13(c *Ctx) {
 				edited, _ := CanReach(Point{Block: b.Succs[k]}, isEdit, ReachOpts{CutInstr: isAppend})
 				ok := kept && !edited
 				c.Ob("R13.3", "buildCanaryWeightHttpRoutes#untouched-rule", ifi.Pos(), ok, "a rule that does not reference the stable Service is appended as it is", ifs(!kept, "such a rule is not appended; ")+ifs(edited, "its backendRefs are edited before it is appended"))
+				// R13.12, the converse: a rule that does reference the stable Service is appended only
+				// after the split was written into it — whatever the weight is (0 is a weight: after
+				// a step with w > 0 the rule still carries the old split)
+				if len(b.Succs) == 2 {
+					skipped, _ := CanReach(Point{Block: b.Succs[1-k]}, isAppend, ReachOpts{CutInstr: isEdit})
+					c.Ob("R13.12", "buildCanaryWeightHttpRoutes#stable-rule-gets-split", ifi.Pos(), !skipped, "a rule that references the stable Service is appended only with the step's split written into it",
+						ifs(skipped, "there is a path on which such a rule is appended as it is: the split it carries from an earlier step stays, desired equals current, and the step is reported as routed"))
+				}
 			}
 		}
 		if nEdges == 0 {
